@@ -92,10 +92,15 @@ def gen_conn():
         raise ExtractError("xmpp_error_type_t not found")
     enum_names = re.findall(r"XMPP_SE_\w+", enum.group(1))
     herr = fn_body(auth, "_handle_error")
-    table = dict((b, a) for a, b in re.findall(r'strcmp\(name,\s*"([^"]+)"\)\s*==\s*0\)\s*conn->stream_error->type\s*=\s*(XMPP_SE_\w+)', herr))
+    # `else if (strcmp(name, "a") == 0 [|| strcmp(name, "b") == 0]) conn->stream_error->type = X;`
+    table = {}
+    for cond, enum_name in re.findall(r'if\s*\(((?:\s*strcmp\(name,\s*"[^"]+"\)\s*==\s*0\s*(?:\|\|)?)+)\)\s*conn->stream_error->type\s*=\s*(XMPP_SE_\w+)', herr):
+        table.setdefault(enum_name, [])
+        table[enum_name] += re.findall(r'"([^"]+)"', cond)
     rows = []
     for i, e in enumerate(enum_names):
-        rows.append('(%d, %s)' % (i, lean_bytes(table[e].encode()) if e in table else "[]"))
+        for nm in table.get(e, []):
+            rows.append('(%d, %s)' % (i, lean_bytes(nm.encode())))
     body += "def streamErrorNames : List (Nat × List UInt8) := [\n  " + ",\n  ".join(rows) + "]\n"
     body += "\nend Strophe.Gen\n"
     write("Conn", body)
